@@ -359,6 +359,32 @@ CHECKS = {
         'pollers and callbacks serialised on the harness thread; the merge / '
         'compliance step of a submission is a stub.',
     ),
+    'C11': (
+        'pipeline-sim', 'exploration',
+        'Hypothesis-generated engines x histories of worker registrations '
+        '(current and look-alike stale revisions), disconnects, status '
+        'polls, reloads, activity changes, archives and dispatch ticks on '
+        'the real schedule+farm; oracle from decoded worker transports and '
+        'a pass-through spy on Hand.do',
+        'After every operation: each task hand-out happened while the '
+        'pipeline was active, to a connection that registered with exactly '
+        'the revision the pipeline runs, was still open and had no task '
+        'before; nothing is written after a disconnect; a tick while not '
+        'active releases nothing and changes no queue; stale registrations '
+        '(empty, prefix of the current revision, current+"0", upper-case, '
+        'previous) are aborted, closed and not listed; status polls are '
+        'answered proceed only for the current revision while active; a '
+        'reload tells every waiting worker to leave and keeps none; the '
+        'farm\'s idle list equals the registered, connected, untasked '
+        'workers of the current revision; released = handed + queued; each '
+        'task message carries the unit\'s job, target (None for analyses), '
+        'factory and run ID: 0 for regressions, the run ID of the triggering '
+        'event when it carried one, else one drawn by db.next() in that '
+        'tick, larger than every run ID seen before; next() is called once '
+        'per released job whose event carried none, never otherwise.',
+        'life-cycle stand-in (goes inactive on archiving_trigger); stub '
+        'database.',
+    ),
 }
 
 NOT_YET = 'check not built yet in this session (planned, see DESIGN.md section 4)'
